@@ -27,7 +27,7 @@ TRUSTED = [
 ]
 ASSUMPTIONS = [
     'object graphs stay forests: an object is attached at one place at a time and never below itself (sharing and cycles are outside)',
-    'only one class has dependent methods; sub-objects have none; methods only log; values are integers, object names come from a small set',
+    'only one class has dependent methods; sub-objects have none; methods only log and, on chosen invocations, raise (caught by the harness around the triggering assignment); values are integers, object names come from a small set',
     'path elements are object-valued parameters, the leaf is an integer parameter or `param` (only at depth 1); no slots (a.x:bounds), no batching',
 ]
 RULE = ('directed histories (the design probes p5, p23 and their variants) + random histories: 1-2 dependent methods with 1-3 path '
@@ -36,7 +36,7 @@ RULE = ('directed histories (the design probes p5, p23 and their variants) + ran
         'fresh objects, and leaf assignments on attached and detached objects (same and different values).  After every step '
         'the invocation log (with the values read) and the watcher tables and dynamic_watchers of all objects are compared with '
         'the model and judged by the oracle.  non-trivial = a method fired at least once and >=3 steps judged')
-COVERAGE_TARGETS = ['depth:1', 'depth:2', 'depth:3', 'deps:one', 'deps:several', 'leaf:param', 'fired',
+COVERAGE_TARGETS = ['step:method-raised', 'depth:1', 'depth:2', 'depth:3', 'deps:one', 'deps:several', 'leaf:param', 'fired',
                     'step:attach', 'step:replace', 'step:detach', 'step:leaf-attached', 'step:leaf-detached', 'step:replace-equal']
 
 LOG = []
@@ -52,7 +52,14 @@ def _spec_str(s):
     return '.'.join(s['path'] + [s['leaf']])
 
 
-def _mk_method(param, name, specs, ids):
+class Boom(Exception):
+    """raised by a generated dependent method on the invocations the case asks for"""
+
+
+COUNT = {}
+
+
+def _mk_method(param, name, specs, ids, raises=()):
     def f(self):
         reads = []
         for s in specs:
@@ -64,6 +71,9 @@ def _mk_method(param, name, specs, ids):
                 v = getattr(v, n, None) if isinstance(v, param.Parameterized) else None
             reads.append(v if (v is None or isinstance(v, int)) else 'obj')
         LOG.append([ids[id(self)], name, reads])
+        k = COUNT[(ids[id(self)], name)] = COUNT.get((ids[id(self)], name), 0) + 1
+        if k in raises:
+            raise Boom(name)
     f.__name__ = name
     return param.depends(*[_spec_str(s) for s in specs], watch=True)(f)
 
@@ -102,13 +112,15 @@ def run_impl(case):
             for p in c['intParams']:
                 ns[p] = param.Number(default=0)
             for m in c['methods']:
-                ns[m['name']] = _mk_method(param, m['name'], m['specs'], ids)
+                ns[m['name']] = _mk_method(param, m['name'], m['specs'], ids, tuple(m.get('raises', ())))
             K.append(type(f'C{k}', (param.Parameterized,), ns))
         objs = []
+        COUNT.clear()
         case = dict(case, _cls_of=[])
         steps = []
         for st in case['steps']:
             del LOG[:]
+            raised = False
             try:
                 if st['op'] == 'new':
                     kw = {}
@@ -120,11 +132,13 @@ def run_impl(case):
                     case['_cls_of'].append(st['cls'])
                 else:
                     setattr(objs[st['o']], st['p'], f"n{st['v']}" if st['p'] == 'name' else _jval(st['v'], objs))
+            except Boom:
+                raised = True       # a dependent method's body raised: the history goes on
             except (ValueError, TypeError, AttributeError) as e:
                 steps.append({'err': type(e).__name__})
                 break
             ws, dyn = _observe(case, K, objs, ids)
-            steps.append({'err': None, 'calls': [list(c) for c in LOG], 'watchers': ws, 'dyn': dyn})
+            steps.append({'err': None, 'calls': [list(c) for c in LOG], 'watchers': ws, 'dyn': dyn, 'raised': raised})
         return {'steps': steps}
     except Exception as e:
         return {'crash': f'{type(e).__name__}: {e}'[:300]}
@@ -159,8 +173,11 @@ def _spec(s):
     return {'path': parts[:-1], 'leaf': parts[-1]}
 
 
-def _m(name, *specs):
-    return {'name': name, 'specs': [_spec(s) for s in specs]}
+def _m(name, *specs, raises=None):
+    m = {'name': name, 'specs': [_spec(s) for s in specs]}
+    if raises:
+        m['raises'] = list(raises)
+    return m
 
 
 class _Shadow:
@@ -235,6 +252,9 @@ def _gen_case(rng):
     methods = [{'name': 'm0', 'specs': _gen_specs(rng)}]
     if rng.random() < 0.25:
         methods.append({'name': 'm1', 'specs': _gen_specs(rng)})
+    for m in methods:
+        if rng.random() < 0.3:
+            m['raises'] = sorted(rng.sample(range(1, 7), rng.randint(1, 3)))
     sh = _Shadow()
     steps = []
 
@@ -313,6 +333,13 @@ def _directed():
         _new(0, x=1), _new(0, a=0), _new(0, b=1), _new(1, a=2), _set(0, 'x', 2), _new(0, x=2), _set(1, 'a', _ref(4)),
         _set(0, 'x', 3), _set(4, 'x', 3), _set(2, 'y', 1), _new(0, x=1), _set(3, 'b', _ref(5)), _set(2, 'y', 2),
         _set(5, 'x', 2), _set(2, 'b', None), _set(2, 'b', _ref(1))]}
+    # a dependent method raises while a nested object is replaced: the dependencies are rebound all the same
+    yield {'classes': _classes([_m('m0', 'a.b.x', raises=[2])]), 'steps': [
+        _new(0, x=1), _new(0, b=0), _new(1, a=1), _set(0, 'x', 5), _new(0, x=2), _set(1, 'b', _ref(3)),
+        _set(3, 'x', 7), _set(0, 'x', 9), _set(3, 'x', 8)]}
+    yield {'classes': _classes([_m('m0', 'a.x', 'a.y', raises=[1, 3]), _m('m1', 'a.y', raises=[2])]), 'steps': [
+        _new(0, x=1), _new(0, x=2, y=2), _new(1, a=0), _set(2, 'a', _ref(1)), _set(1, 'y', 3), _set(0, 'y', 4),
+        _set(1, 'y', 5), _set(2, 'a', _ref(0)), _set(0, 'x', 3)]}
     # rejected values end the history
     yield {'classes': _classes([_m('m0', 'a.x')]), 'steps': [_new(0), _new(1, a=0), _set(1, 'a', 3)]}
     yield {'classes': _classes([_m('m0', 'a.x')]), 'steps': [_new(0), _new(1, a=0), _set(0, 'name', 1)]}
